@@ -332,6 +332,80 @@ def run(ctx):
                 "a freshly built identical parser would decide differently" % (short(g.qual), short(w), fmt(n2)[:60] if isinstance(n2, dict) else ""), (g, n2.get("ln") if isinstance(n2, dict) else None))
     if not pwrites:
         ctx.ok("R14.5", parse, "parser-unchanged-by-parse", "no parser member is written by the functions reachable from parse()", parse)
+    # ---- R14.6: the groups are part of the declaration, not of a parse. A data member of group that the token loop writes - a
+    # remembered selection, a counter - is per-parse state like the options' values; it has to be put back for EVERY group the parser
+    # owns (parser::groups_, which includes the default group that group_order_ does not list) by the reset pass
+    ctx.rule("R14.6", "a data member of group written on the parse path is reset by the reset pass for every element of parser::groups_ (the default group included)")
+    import re as _re
+    gfields = class_fields(prog, NS + "group")
+    ctx.need("R14.6", "data members of group", len(gfields), 4)
+
+    def _range_of(g, n):
+        """the member the range-for iterates whose element the written object `n` (the lvalue of the write) belongs to"""
+        base = n
+        txt = fmt(base)
+        m = _re.search(r"__begin(\d+)", txt)
+        decls = {v["name"]: v for _, _, e in g.all_elems() if isinstance(e.get("expr"), dict) and e["expr"].get("k") == "decl" for v in e["expr"].get("vars", [])}
+        hops = 0
+        while m is None and hops < 4:
+            hops += 1
+            names = [x["decl"].split(":", 1)[1] for x in walk(base) if x.get("k") == "ref" and x["decl"].startswith("local:")]
+            nxt = next((decls[x] for x in names if x in decls and decls[x].get("init") is not None), None)
+            if nxt is None:
+                return None
+            base = nxt["init"]
+            m = _re.search(r"__begin(\d+)", fmt(base))
+        if m is None:
+            return None
+        rv = decls.get("__range" + m.group(1))
+        if rv is None or rv.get("init") is None:
+            return None
+        kind, key, _ = lvalue_root(rv["init"])
+        return key[0] if kind == "field" else None
+
+    gw = {}
+    greset = {}
+    for fid in sorted(full_reach):
+        g = prog.fn(fid)
+        if g is None or not g.has_cfg or g.kind in ("ctor", "dtor"):
+            continue
+        for (w, base, n2, b2, i2, how) in cg.field_writes(g):
+            if w not in gfields or how != "write" or std_lookup(n2):
+                continue
+            if fid in preach and classify_write(prog, n2, w)[0] == "reset":
+                lv = n2.get("l") if n2.get("k") == "bin" else (n2.get("this") or (n2.get("args") or [None])[0])
+                greset.setdefault(w, []).append((g, n2, base, _range_of(g, lv) if base != "this" else "this"))
+            elif fid in reach:
+                gw.setdefault(w, []).append((g, n2))
+    for w, ws in sorted(gw.items()):
+        g0, n0 = ws[0]
+        rs = greset.get(w, [])
+        whole = [r for r in rs if r[3] == NS + "parser::groups_"]
+        # a reset written in a member function of group (base `this`) covers the groups that function is called for
+        for g, n2, base, rng in rs:
+            if rng != "this":
+                continue
+            for caller in sorted(cg.callers(g.id)):
+                cf = prog.fn(caller)
+                if cf is None or caller not in preach:
+                    continue
+                for st in cg.sites[caller]:
+                    if g.id in st["targets"] and st["node"].get("this") is not None and _range_of(cf, st["node"]["this"]) == NS + "parser::groups_":
+                        whole.append((g, n2, base, NS + "parser::groups_"))
+        if whole:
+            ctx.ok("R14.6", g0, "group-state-reset-for-all:" + short(w), "written on the parse path, reset for every element of parser::groups_ by %s" % short(whole[0][0].qual), g0)
+        elif rs:
+            ctx.bad("R14.6", rs[0][0], "group-state-reset-for-all:" + short(w),
+                    "group::%s is written while the tokens are applied (%s, `%s`) and the reset pass puts it back only for the groups in %s: the parser's "
+                    "own default group - where parser::option()/toggle() declare - is an element of parser::groups_ only, so what one parse leaves in it "
+                    "is what the next parse on the same object starts from" % (short(w), short(g0.qual), fmt(n0)[:50], ", ".join(sorted({short(str(r[3])) for r in rs}))),
+                    (rs[0][0], rs[0][1].get("ln")))
+        else:
+            ctx.bad("R14.6", g0, "group-state-reset-for-all:" + short(w),
+                    "group::%s is written while the tokens are applied (%s, `%s`) and nothing the reset pass reaches puts it back: a second parse() on the same "
+                    "parser starts from what the first one left" % (short(w), short(g0.qual), fmt(n0)[:50]), (g0, n0.get("ln")))
+    if not gw:
+        ctx.ok("R14.6", parse, "groups-unchanged-by-parse", "no data member of group (%d members) is written by the %d functions reachable from parse()" % (len(gfields), len(full_reach)), parse)
     # ---- R14.4: the argument strings are read before anything of the previous call is released. argv may point INTO the previous
     # result (`first.get("output").c_str()` forwarded to the next call): the reset pass frees those strings
     ctx.rule("R14.4", "in parse(argc, argv) no read of argv is reachable after the reset pass (the arguments are copied into tokens first, then the previous values are released)")
